@@ -404,6 +404,8 @@ def pair_shapes():
             "lenarr": lambda: (lambda m: [Elem("length", {"name": m, "type": "char"}), Elem("array", {"name": nm.name("a"), "type": "SF", "length": m})])(nm.name("m")),
             "len": lambda: [Elem("length", {"name": n, "type": "char"})],
             "useslen": lambda: [Elem("field", {"name": nm.name("u"), "type": "string", "length": n})],
+            "useslen_opt": lambda: [Elem("field", {"name": nm.name("uo"), "type": "string", "length": n, "optional": "true"})],
+            "useslen_optarr": lambda: [Elem("array", {"name": nm.name("ua"), "type": "char", "length": n, "optional": "true"})],
             "named": lambda: [Elem("field", {"name": shared, "type": "char"})],
             "dummy": lambda: [Elem("dummy", {"type": "short"}, text=nm.digits("dv"))],
             "hard": lambda: [Elem("field", {"type": "char"}, text=nm.digits("hv"))],
@@ -437,7 +439,10 @@ def pair_shapes():
             at = atoms(nm)
             return at[a](), at[b](), []
         yield Shape(("pair", a, b), dict(tag="pair", first=a, second=b), build)
-    for a, b, c in (("len", "useslen", "useslen"), ("opt", "break", "req"), ("opt", "break", "opt"), ("dummy", "break", "req"), ("opt", "switchopt", "opt"),
+    for a, b, c in (("len", "useslen", "useslen"),
+                    # a second reference to a length field whose first referrer is optional (or an array)
+                    ("len", "useslen_opt", "useslen_opt"), ("len", "useslen_optarr", "useslen_opt"), ("len", "useslen_opt", "useslen_optarr"),
+                    ("len", "useslen", "useslen_opt"), ("opt", "break", "req"), ("opt", "break", "opt"), ("dummy", "break", "req"), ("opt", "switchopt", "opt"),
                     ("switchopt", "opt", "opt"), ("chunkopt", "opt", "req"), ("switchoptfirst", "opt", "optstr"),
                     # what stands between a switch field and its switch reaches into the cases (and back out)
                     ("kfield", "opt", "switchk_req"), ("kfield", "opt", "switchk_opt"), ("kfield", "opt", "switchk_dummy"),
